@@ -6,10 +6,13 @@ package storage
 
 import (
 	"crypto/sha256"
+	"errors"
 	"fmt"
 	"os"
 	"path"
 	"time"
+
+	"github.com/hashicorp/go-multierror"
 
 	"github.com/dtn7/dtn7-go/pkg/bpv7"
 )
@@ -92,6 +95,13 @@ func (bp BundlePart) Load() (b bpv7.Bundle, err error) {
 		err = fErr
 	} else {
 		b, err = bpv7.ParseBundle(f)
+
+		// Parsing validates the Bundle, including its lifetime. A Bundle was valid when it was stored, but its lifetime
+		// might have run out while it was waiting. It must still be loadable to be inspected, reported and deleted.
+		var merr *multierror.Error
+		if errors.As(err, &merr) && len(merr.Errors) == 1 && b.IsLifetimeExceeded() {
+			err = nil
+		}
 	}
 	return
 }
